@@ -66,6 +66,14 @@ def build(cls, label):
         return ev.Power(arg('f', (2,)), arg('g', (2,))), {'f': (2,), 'g': (2,)}
     if cls == 'Legendre':
         return ev.Legendre(arg('x', (2,)), 4), {'x': (2,)}
+    if cls == 'Argument':
+        shp = {'shape0': (), 'shape2': (2,), 'shape2x3': (2, 3)}.get(label.split(',')[0], (2,))
+        if 'integer' in label or 'other' in label:
+            return None, None
+        return arg('a', shp), {'a': shp}
+    if cls == 'Choose':
+        ch = arg('c', (2, 2, 3))
+        return ev.Choose(c(numpy.array([[2, 0], [1, 1]])), ch), {'c': (2, 2, 3)}
     if cls == 'Pointwise':
         return ev.ArcTan2(arg('x', (2,)), arg('y', (2,))), {'x': (2,), 'y': (2,)}
     if cls == 'Holomorphic':
@@ -132,3 +140,27 @@ def check(cls, label, model=None):
         print('REPLAY: VIOLATION-CONFIRMED symbolic derivative differs from the true derivative')
     else:
         print('REPLAY: not reproduced by central differences')
+
+
+def driver(scenario):
+    """evaluable.derivative on real nodes: zero rule for integer targets / independent functions, memo, shape assertion."""
+    from nutils import evaluable as ev
+    c = ev.constant
+    bad = []
+    x = ev.Argument('x', (c(2),), float)
+    n = ev.Argument('n', (c(3),), int)
+    y = ev.Argument('y', (c(3),), float)
+    f = ev.Sin(x)
+    d = ev.derivative(f, n)
+    if not (isinstance(d, ev.Zeros) and tuple(int(s.__index__()) if hasattr(s, '__index__') else 0 for s in d.shape) == (2, 3)):
+        bad.append('derivative to an integer argument is %r, expected zeros of shape (2, 3)' % (d,))
+    d = ev.derivative(f, y)
+    if not isinstance(d, ev.Zeros):
+        bad.append('derivative to an argument the function does not depend on is %r' % (d,))
+    seen = {}
+    d1, d2 = ev.derivative(f, x, seen), ev.derivative(f, x, seen)
+    if d1 is not d2:
+        bad.append('the memo does not return the stored object')
+    for b in bad:
+        print(b)
+    print('REPLAY: VIOLATION-CONFIRMED' if bad else 'REPLAY: not reproduced')
